@@ -157,4 +157,4 @@ def _seeds():
     ]
 
 
-TARGETS = {"object_body": dict(fn=object_body, seeds=_seeds, max_len=700, imports=["dulwich.objects"], warmup=_repo)}
+TARGETS = {"object_body": dict(fn=object_body, seeds=_seeds, max_len=700, imports=["dulwich.objects"], warmup=_repo, reset=_state.clear)}
